@@ -381,11 +381,11 @@ func decodeGoToSexpHelper(r interface{}, depth int, env *Zlisp, preferSym bool) 
 			}
 		}
 		hash, err := MakeHash(pairs, typeName, env)
+		panicOn(err)
 		if foundzKeyOrder {
 			err = SetHashKeyOrder(hash, keyOrd)
 			panicOn(err)
 		}
-		panicOn(err)
 		return hash
 
 	case []byte:
